@@ -44,6 +44,7 @@ func (fr *FuncRun) execMapUpdate(f *Frame, st *State, x *ssa.MapUpdate) {
 	mt := x.Map.Type().Underlying().(*types.Map)
 	fr.assertOb(st, "nilmap-store", exprText(x.Map)+"["+exprText(x.Key)+"]", not(eq(mv.T, "0")), x.Pos(), "assignment to entry in nil map")
 	fr.provCheck(st, mv, true, exprText(x.Map), x.Pos())
+	fr.publishedWrite(st, mv, exprText(x.Map), x.Pos())
 	fr.eventGhost(f, st, "mapstore:"+exprText(x.Map), map[string]TVal{"key": {Val: kv, Type: mt.Key()}, "value": {Val: vv, Type: mt.Elem()}}, x.Pos())
 	fr.mapStore(st, mt, mv.T, fr.valTerm(kv), fr.valTerm(vv))
 }
